@@ -6,7 +6,6 @@ import (
 	"encoding/json"
 	"flag"
 	"fmt"
-	"net"
 	"os"
 	"strconv"
 	"strings"
@@ -19,6 +18,7 @@ import (
 	"github.com/samaritan-proxy/samaritan/utils/verifhook"
 
 	"verifharness/internal/cli"
+	"verifharness/internal/resp"
 	"verifharness/internal/simredis"
 	"verifharness/internal/sut"
 )
@@ -63,6 +63,10 @@ type result struct {
 	HeldAtReset    bool     `json:"heldAtReset"` // all clients were reset while a reader was held at the entry of createClient(node)
 	ResetHung      bool     `json:"resetHung"`   // OnSvcAllHostReplace did not return within 5 s
 	Err            string   `json:"err,omitempty"`
+	CfgErr         string   `json:"cfgErr,omitempty"` // OnSvcConfigUpdate returned an error
+	Late           []string `json:"late,omitempty"`   // replies / returns that came after the first deadline (5 s) but within the extended one (15 s): a loaded machine, no verdict
+	// the worker process that hosted the processor died while it replayed this history
+	Crash *crashInfo `json:"crash,omitempty"`
 }
 
 // Several histories are replayed at the same time (each on its own cluster and processor); the one process-wide
@@ -76,33 +80,6 @@ var (
 // startMu serialises the allocation of ports (cluster listeners, sut.FreePort + bind of the processor) between the
 // histories replayed at the same time: a port picked by FreePort must be bound before anybody else looks for one.
 var startMu sync.Mutex
-
-// proxyPort picks the listening port of a processor outside the kernel's ephemeral range (call with startMu held).
-// sut.FreePort takes an ephemeral port: with several histories in one process that can be the port of a simulated node
-// which is shut down at the moment and restarts later - the processor then fails to bind, and the harness' clients
-// would talk to that node instead of the proxy.
-var portSeq int
-
-func proxyPort() int {
-	lo := 32768
-	if b, err := os.ReadFile("/proc/sys/net/ipv4/ip_local_port_range"); err == nil {
-		fmt.Sscanf(string(b), "%d", &lo)
-	}
-	if lo < 12000 {
-		return sut.FreePort()
-	}
-	span := lo - 1000 - 10000
-	for i := 0; i < 2000; i++ {
-		portSeq++
-		p := 10000 + (os.Getpid()*131+portSeq*7)%span
-		ln, err := net.Listen("tcp", fmt.Sprintf("127.0.0.1:%d", p))
-		if err == nil {
-			ln.Close()
-			return p
-		}
-	}
-	return sut.FreePort()
-}
 
 func hookAdd(f verifhook.Func) (remove func()) {
 	hookMu.Lock()
@@ -141,6 +118,30 @@ const (
 	fillPerConn = 32                      // a session keeps at most 33 requests in flight
 	inflightCap = fillConns * fillPerConn // = cap(client.processingReqs) = 1024
 )
+
+// Verdicts that rest on a deadline (no reply, a reset that does not return) are only reported when the wait was extended
+// from 5 s to 15 s and nothing came: a deadlock stays, a starved goroutine on a loaded machine gets its turn.
+const (
+	firstWait = 5 * time.Second
+	moreWait  = 10 * time.Second
+)
+
+// doPatient sends a command and waits for the reply, first firstWait, then moreWait more; late reports a reply that
+// needed the extension.
+func doPatient(c *sut.Client, args ...string) (v resp.Value, err error, late bool) {
+	v, err = c.Do(firstWait, args...)
+	if err != nil && isTimeout(err) {
+		v, err = c.Recv(moreWait)
+		late = err == nil
+	}
+	return
+}
+
+func isTimeout(err error) bool {
+	type to interface{ Timeout() bool }
+	t, ok := err.(to)
+	return ok && t.Timeout()
+}
 
 // gateIDs: histories (1-based) in which a reset of all clients that follows an asking request is forced into the window
 // "reader about to create the client" (nil: all)
@@ -229,7 +230,7 @@ func replayOne(id int, steps []step) (res result) {
 		}
 	})
 	defer unhook()
-	px, err := sut.StartRedis(sut.RedisOpts{ConnectTO: 300 * time.Millisecond, Port: proxyPort()}, []string{seed.Addr})
+	px, err := sut.StartRedis(sut.RedisOpts{ConnectTO: 300 * time.Millisecond}, []string{seed.Addr})
 	unlock()
 	if err != nil {
 		res.Err = "start: " + err.Error()
@@ -352,16 +353,22 @@ func replayOne(id int, steps []step) (res result) {
 			go func(r int) {
 				defer close(p.done)
 				c, err := sut.Dial(px.Addr)
+				for try := 0; err != nil && try < 3; try++ {
+					c, err = sut.Dial(px.Addr) // the listener of the proxy is not what is judged here
+				}
 				if err != nil {
 					mu.Lock()
-					p.obs = reqObs{R: r, Got: "none", Text: "dial: " + err.Error()}
+					p.obs = reqObs{R: r, Got: "infra", Text: "dial: " + err.Error()}
 					mu.Unlock()
 					return
 				}
 				defer c.Close()
-				v, err := c.Do(5*time.Second, "get", key)
+				v, err, late := doPatient(c, "get", key)
 				mu.Lock()
 				defer mu.Unlock()
+				if late {
+					res.Late = append(res.Late, fmt.Sprintf("reply to request %d", r))
+				}
 				if err != nil {
 					p.obs = reqObs{R: r, Got: "none", Text: err.Error()}
 				} else if v.IsErr() {
@@ -411,6 +418,8 @@ func replayOne(id int, steps []step) (res result) {
 			o.Model, o.MayErr = s.Out, s.MayErr
 			res.Reqs = append(res.Reqs, o)
 			switch {
+			case o.Got == "infra":
+				res.Err = fmt.Sprintf("request %d: the client could not connect to the proxy: %s", s.R, o.Text)
 			case o.Got == "none":
 				res.Bad = append(res.Bad, fmt.Sprintf("request %d got no reply: %s", s.R, o.Text))
 			case o.Got == "err" && !s.MayErr:
@@ -424,6 +433,13 @@ func replayOne(id int, steps []step) (res result) {
 			}
 			stalled, held = true, false
 			res.Stalls++
+		case "ConfigUpdate":
+			// a run-time configuration that does not name the timeouts (the processor wrapper fills the defaults in)
+			nc := sut.RedisConfig(sut.RedisOpts{Port: int(px.Cfg.Listener.Address.Port)})
+			nc.ConnectTimeout, nc.IdleTimeout = nil, nil
+			if err := px.P.OnSvcConfigUpdate(nc); err != nil {
+				res.CfgErr = err.Error()
+			}
 		case "Unstall":
 			node.SetGate(false)
 			stalled, held = false, false
@@ -460,8 +476,13 @@ func replayOne(id int, steps []step) (res result) {
 				}
 				select {
 				case <-done:
-				case <-time.After(5 * time.Second):
-					res.ResetHung = true
+				case <-time.After(firstWait):
+					select {
+					case <-done:
+						res.Late = append(res.Late, "return of OnSvcAllHostReplace")
+					case <-time.After(moreWait):
+						res.ResetHung = true
+					}
 				}
 			})
 		}
@@ -485,11 +506,16 @@ func replayOne(id int, steps []step) (res result) {
 	if err == nil {
 		for try := 1; try <= 3; try++ {
 			res.HealTries = try
-			healTO := 5 * time.Second
+			var v resp.Value
+			var err error
 			if res.ResetHung {
-				healTO = 2 * time.Second
+				v, err = c.Do(2*time.Second, "get", healKey) // the reset has not returned for 15 s: the verdict is in
+			} else {
+				var late bool
+				if v, err, late = doPatient(c, "get", healKey); late {
+					res.Late = append(res.Late, "reply to the healing request")
+				}
 			}
-			v, err := c.Do(healTO, "get", healKey)
 			if err != nil {
 				res.HealText = err.Error()
 				break
@@ -541,73 +567,69 @@ func replay(args []string) error {
 	fs := flag.NewFlagSet("c07-replay", flag.ContinueOnError)
 	in := fs.String("in", "", "behaviours (ndjson)")
 	out := fs.String("out", "", "results (ndjson)")
-	par := fs.Int("par", 4, "histories replayed at the same time")
+	par := fs.Int("par", 4, "histories replayed at the same time (one worker process each)")
 	gate := fs.String("gate", "all", "histories (1-based, comma separated) in which reset-after-asking is forced into the createClient window")
+	worker := fs.Bool("worker", false, "replay the one history on stdin in this process, result on stdout")
+	id := fs.Int("id", 1, "worker: id of the history")
+	gated := fs.Bool("gated", true, "worker: force reset-after-asking into the createClient window")
 	if err := fs.Parse(args); err != nil {
 		return err
 	}
-	if *gate != "all" {
-		gateIDs = map[int]bool{}
-		for _, f := range strings.Split(*gate, ",") {
-			if n, err := strconv.Atoi(strings.TrimSpace(f)); err == nil {
-				gateIDs[n] = true
-			}
+	if *worker {
+		var steps []step
+		if err := json.NewDecoder(os.Stdin).Decode(&steps); err != nil {
+			return err
+		}
+		if !*gated {
+			gateIDs = map[int]bool{}
+		}
+		predis.VerifSetSlotsRefreshTimers(time.Hour, 20*time.Millisecond)
+		verifhook.Set(hookDispatch)
+		r := replayOne(*id, steps)
+		if r.Err != "" {
+			// infrastructure trouble (port, start, queue not filled in time): once more
+			r = replayOne(*id, steps)
+		}
+		return json.NewEncoder(os.Stdout).Encode(r)
+	}
+	gateAll := *gate == "all"
+	gset := map[int]bool{}
+	for _, f := range strings.Split(*gate, ",") {
+		if n, err := strconv.Atoi(strings.TrimSpace(f)); err == nil {
+			gset[n] = true
 		}
 	}
-	predis.VerifSetSlotsRefreshTimers(time.Hour, 20*time.Millisecond)
-	verifhook.Set(hookDispatch)
-	defer verifhook.Set(nil)
 	w, err := cli.NewNDJSONWriter(*out)
 	if err != nil {
 		return err
 	}
 	defer w.Close()
-	var all [][]step
+	var all [][]byte
 	if err := cli.ReadNDJSON(*in, func(line []byte) error {
-		var steps []step
-		if err := json.Unmarshal(line, &steps); err != nil {
-			return err
-		}
-		all = append(all, steps)
+		all = append(all, line)
 		return nil
 	}); err != nil {
 		return err
 	}
-	// results are written in input order, as soon as every earlier one is there
-	results := make([]*result, len(all))
-	var mu sync.Mutex
-	next := 0
-	var werr error
-	jobs := make(chan int)
-	var wg sync.WaitGroup
-	for k := 0; k < *par; k++ {
-		wg.Add(1)
-		go func() {
-			defer wg.Done()
-			for i := range jobs {
-				r := replayOne(i+1, all[i])
-				if r.Err != "" {
-					// infrastructure trouble (port, start, queue not filled in time): once more
-					r = replayOne(i+1, all[i])
-				}
-				mu.Lock()
-				results[i] = &r
-				for next < len(results) && results[next] != nil {
-					if err := w.Write(results[next]); err != nil && werr == nil {
-						werr = err
-					}
-					next++
-				}
-				mu.Unlock()
+	parse := func(i int, r workerResult) result {
+		res := result{ID: i + 1}
+		if r.Out != nil {
+			if err := json.Unmarshal(r.Out, &res); err != nil {
+				res.Err = "worker result: " + err.Error()
 			}
-		}()
+		}
+		res.Crash = r.Crash
+		if r.Err != "" {
+			res.Err = r.Err
+		}
+		return res
 	}
-	for i := range all {
-		jobs <- i
-	}
-	close(jobs)
-	wg.Wait()
-	return werr
+	return runAll(len(all), *par, func(i int) workerResult {
+		extra := []string{"-id", strconv.Itoa(i + 1), fmt.Sprintf("-gated=%v", gateAll || gset[i+1])}
+		return runItem("c07-replay", extra, all[i], 180*time.Second)
+	}, func(i int, r workerResult) error {
+		return w.Write(parse(i, r))
+	})
 }
 
 // ---- several backends lose their connections at the same instant
@@ -663,7 +685,7 @@ func multi(args []string) error {
 			ok := false
 			var last string
 			for try := 0; try < 4 && !ok; try++ {
-				v, err := c.Do(3*time.Second, "get", k)
+				v, err := c.Do(8*time.Second, "get", k)
 				if err != nil {
 					last = err.Error()
 					break
